@@ -36,7 +36,8 @@ DocBounds ==
     srgbluma |-> << Unit >>,
     \* CAM16-UCS: "lightness: 0 to 100", colourfulness "0 and up", a' and b' unbounded (bounds contract only, no conversions here)
     cam16ucsjab |-> << <<Q(0, 1), Q(100, 1)>>, Free, Free >>,
-    cam16ucsjmh |-> << <<Q(0, 1), Q(100, 1)>>, <<Q(0, 1), NoB>>, Free >>,
+    \* max_srgb_colorfulness() = 50 is "entirely arbitrary and only for use in Lighten, Darken and random generation": advisory
+    cam16ucsjmh |-> << <<Q(0, 1), Q(100, 1)>>, <<Q(0, 1), Q(50, 1)>>, Free >>,
     \* cone responses: "the typical range is between 0.0 and 1.0, but it doesn't have an actual upper bound"
     lmsvk    |-> << <<Q(0, 1), NoB>>, <<Q(0, 1), NoB>>, <<Q(0, 1), NoB>> >>,
     lmsbfd   |-> << <<Q(0, 1), NoB>>, <<Q(0, 1), NoB>>, <<Q(0, 1), NoB>> >>,
@@ -59,14 +60,14 @@ DocBounds ==
 NodeNames == DOMAIN DocBounds
 NComp(node) == Len(DocBounds[node])
 (* index of the hue component, 0 if none *)
-HueIdx(node) == CASE node \in {"lch", "lchuv", "oklch", "lch50"} -> 3
+HueIdx(node) == CASE node \in {"lch", "lchuv", "oklch", "lch50", "cam16ucsjmh"} -> 3
                   [] node \in {"hsluv", "okhsl", "okhsv", "okhwb", "hsl", "hsv", "hwb", "hsv_adobe", "hsl_p3", "hwb_rec2020", "hsv_prophoto",
                              "hsv_linsrgb", "hsl_linsrgb", "hwb_rec709"} -> 1
                   [] OTHER -> 0
 
 (* Upper bounds that the documentation gives as guidance only and that the type's contract does not
    enforce: Lch::max_chroma ("does not cover the entire colour space, but covers enough to be practical"). *)
-AdvisoryUpper == { <<"lch", 2>>, <<"lch50", 2>> }
+AdvisoryUpper == { <<"lch", 2>>, <<"lch50", 2>>, <<"cam16ucsjmh", 2>> }
 (* Documented slack above an upper bound: Okhsv accepts saturation and value up to 1 + 1e-6, "the maximum
    inaccuracy of the sRGB gamut boundary computation" (ok_utils::MAX_SRGB_SATURATION_INACCURACY).
    As a power of two not below it: 2^-19 > 1e-6 (and covers f32 rounding of the sum). *)
